@@ -298,6 +298,10 @@ func (fr *Frame) atCall(st *State, name string, args []Val, pos token.Pos) {
 			continue
 		}
 		env := top.specEnv(st, top.entry)
+		if top == fr {
+			// locals named in the clause mean their value here: inside a loop that is the loop-carried value
+			env.header = top.innermostLoopHeader(top.curBlock)
+		}
 		for k, a := range args {
 			env.vars[fmt.Sprintf("arg%d", k)] = a
 		}
@@ -919,6 +923,17 @@ func (fr *Frame) doAppend(st *State, c *ssa.CallCommon, args []Val) Val {
 	inT := fmt.Sprintf("(and (<= (+ (sl_off %s) (sl_len %s)) %s) (< %s (+ (sl_off %s) %s)))", res, s.T, j, j, res, newLen)
 	u.assume(fmt.Sprintf("(forall ((%s Int)) (! (and (=> %s (= (select %s %s) %s)) (=> %s (= (select %s %s) %s)) (=> (and %s (not %s) (not %s)) (= (select %s %s) (select %s %s)))) :pattern ((select %s %s))))",
 		j, inS, newRow, j, oldAt, inT, newRow, j, srcElem, fits, inS, inT, newRow, j, oldRowS, j, newRow, j))
+	if !isStr {
+		// element-set view: elems(append(s, t...)) == elems(s) + elems(t)
+		el := u.sliceElems(es)
+		tRow := sel(hc, app("sl_base", t.T))
+		x := fmt.Sprintf("x!%d", u.enc.fresh)
+		u.enc.fresh++
+		en := app(el, newRow, app("sl_off", res), newLen)
+		eo := app(el, oldRowS, app("sl_off", s.T), app("sl_len", s.T))
+		et := app(el, tRow, app("sl_off", t.T), app("sl_len", t.T))
+		u.assume(fmt.Sprintf("(forall ((%s %s)) (! (= (select %s %s) (or (select %s %s) (select %s %s))) :pattern ((select %s %s))))", x, es, en, x, eo, x, et, x, en, x))
+	}
 	u.heapStoreAt(st, h, resBase, newRow)
 	return Val{T: res, S: "Slice"}
 }
